@@ -7,7 +7,8 @@ From Coq Require Import List ZArith Bool.
 Import ListNotations.
 Open Scope Z_scope.
 
-Inductive outcome := Ok | Err | Panic.
+(* Err: the plan returns an error; Panic: the plan panics; PanicNext: the plan runs, NextStages() panics *)
+Inductive outcome := Ok | Err | Panic | PanicNext.
 Definition is_ok (o : outcome) : bool := match o with Ok => true | _ => false end.
 
 (* stage tree: outcome of the stage's own plan, async flag, next stages *)
